@@ -12,7 +12,9 @@ pub struct Span { pub off: usize, pub len: usize, pub role: Role }
 
 #[derive(Default, Debug, Clone)]
 pub struct SpanMap { pub spans: Vec<Span>, /// (start, len) of every code array
-    pub code_arrays: Vec<(usize, usize)> }
+    pub code_arrays: Vec<(usize, usize)>,
+    /// (start of attribute header, end of attribute body, attribute name) for every attribute at every level
+    pub attrs: Vec<(usize, usize, String)> }
 
 pub type PResult<T> = Result<T, String>;
 
@@ -217,7 +219,7 @@ pub fn parse_prefix(bytes: &[u8], record: bool) -> PResult<Parsed> {
     let mut seen: Vec<Vec<u8>> = vec![];
     for _ in 0..n {
         let name = pool.utf8(r.u16(Role::PoolIndex)?)?; let len = r.u32(Role::Length)? as usize;
-        r.need(len)?; let end = r.p + len;
+        r.need(len)?; let end = r.p + len; if r.record { r.spans.attrs.push((r.p - 6, end, name.show())); }
         let nm = name.0.as_slice();
         let single = !matches!(nm, b"Deprecated" | b"Synthetic") && KNOWN_CLASS_ATTRS.contains(&nm);
         if single { if seen.iter().any(|s| s == nm) { return Err(format!("duplicate class attribute {name:?}")); } seen.push(nm.to_vec()); }
@@ -326,7 +328,7 @@ fn read_field(r: &mut R, pool: &Pool, bsm: &Option<Vec<(u16, Vec<u16>)>>) -> PRe
     let n = r.u16(Role::Count)?;
     let mut seen: Vec<Vec<u8>> = vec![];
     for _ in 0..n {
-        let name = pool.utf8(r.u16(Role::PoolIndex)?)?; let len = r.u32(Role::Length)? as usize; r.need(len)?; let end = r.p + len;
+        let name = pool.utf8(r.u16(Role::PoolIndex)?)?; let len = r.u32(Role::Length)? as usize; r.need(len)?; let end = r.p + len; if r.record { r.spans.attrs.push((r.p - 6, end, name.show())); }
         let nm = name.0.as_slice();
         if matches!(nm, b"ConstantValue" | b"Signature" | b"RuntimeVisibleAnnotations" | b"RuntimeInvisibleAnnotations" | b"RuntimeVisibleTypeAnnotations" | b"RuntimeInvisibleTypeAnnotations") {
             if seen.iter().any(|s| s == nm) { return Err(format!("duplicate field attribute {name:?}")); } seen.push(nm.to_vec());
@@ -358,7 +360,7 @@ fn read_method(r: &mut R, pool: &Pool, bsm: &Option<Vec<(u16, Vec<u16>)>>, major
     let n = r.u16(Role::Count)?;
     let mut seen: Vec<Vec<u8>> = vec![];
     for _ in 0..n {
-        let name = pool.utf8(r.u16(Role::PoolIndex)?)?; let len = r.u32(Role::Length)? as usize; r.need(len)?; let end = r.p + len;
+        let name = pool.utf8(r.u16(Role::PoolIndex)?)?; let len = r.u32(Role::Length)? as usize; r.need(len)?; let end = r.p + len; if r.record { r.spans.attrs.push((r.p - 6, end, name.show())); }
         let nm = name.0.as_slice();
         if matches!(nm, b"Code" | b"Exceptions" | b"Signature" | b"RuntimeVisibleAnnotations" | b"RuntimeInvisibleAnnotations" | b"RuntimeVisibleTypeAnnotations" | b"RuntimeInvisibleTypeAnnotations"
             | b"RuntimeVisibleParameterAnnotations" | b"RuntimeInvisibleParameterAnnotations" | b"AnnotationDefault" | b"MethodParameters") {
@@ -398,7 +400,7 @@ fn read_record_component(r: &mut R, pool: &Pool) -> PResult<RecordComponent> {
     c.desc = pool.utf8(r.u16(Role::PoolIndex)?)?; check_field_desc(&c.desc)?;
     let n = r.u16(Role::Count)?;
     for _ in 0..n {
-        let name = pool.utf8(r.u16(Role::PoolIndex)?)?; let len = r.u32(Role::Length)? as usize; r.need(len)?; let end = r.p + len;
+        let name = pool.utf8(r.u16(Role::PoolIndex)?)?; let len = r.u32(Role::Length)? as usize; r.need(len)?; let end = r.p + len; if r.record { r.spans.attrs.push((r.p - 6, end, name.show())); }
         match name.0.as_slice() {
             b"Signature" => c.signature = Some(pool.utf8(r.u16(Role::PoolIndex)?)?),
             b"RuntimeVisibleAnnotations" => c.vis_annotations = read_annotations(r, pool)?,
@@ -588,7 +590,7 @@ fn read_code(r: &mut R, pool: &Pool, bsm: &Option<Vec<(u16, Vec<u16>)>>, major: 
     let na = r.u16(Role::Count)?;
     let mut had_smt = false;
     for _ in 0..na {
-        let name = pool.utf8(r.u16(Role::PoolIndex)?)?; let len = r.u32(Role::Length)? as usize; r.need(len)?; let end = r.p + len;
+        let name = pool.utf8(r.u16(Role::PoolIndex)?)?; let len = r.u32(Role::Length)? as usize; r.need(len)?; let end = r.p + len; if r.record { r.spans.attrs.push((r.p - 6, end, name.show())); }
         match name.0.as_slice() {
             b"LineNumberTable" => {
                 let cnt = r.u16(Role::Count)?; let v = c.line_numbers.get_or_insert_with(Vec::new);
